@@ -699,6 +699,7 @@ class ExprMixin:
         raise EngineError(f"comparison {type(op).__name__} on {a.t!r}, {b.t!r}")
 
     def contains(self, container: SV, x: SV, st):
+        container = self.unbox(container, st)
         t = container.t
         if isinstance(t, TConst):
             items = None
@@ -818,7 +819,8 @@ class ExprMixin:
         def fin2(s, vals):
             if isinstance(vals, Raised):
                 return [(s, vals)]
-            b = vals[0]
+            b = self.unbox(vals[0], s)
+            vals = [b] + list(vals[1:])
             if isinstance(b.t, TRef) or (isinstance(b.t, TOpt) and isinstance(b.t.inner, TRef)):
                 # obj[key] on an object: its class's __getitem__ (a contracted repo method or an assumed external one)
                 rs = []
@@ -847,7 +849,16 @@ class ExprMixin:
         s.add(z3.Not(cond))
         return s.check() == z3.unsat
 
+    def unbox(self, v: SV, st):
+        """A dict that sits inside another container is a reference to an immutable mapping object (TBoxDict): where it is
+        used as a dict, load its content (a dict-typed heap field) and assume the key list / membership connection."""
+        if isinstance(v.t, sym.TBoxDict):
+            d = st.load(v.z, f"{v.t.cls}.__mapping__", v.t.inner)
+            return d
+        return v
+
     def index(self, base: SV, idx: SV, st, node):
+        base = self.unbox(base, st)
         t = base.t
         if isinstance(t, TOpt):
             if not st.spec:  # in a specification the clause itself guards the access (implies(x is not None, ...))
